@@ -75,16 +75,46 @@ func (i *insertOnUpdateExecutor) ExecContext(ctx context.Context, f exec.Callbac
 	}
 
 	if len(beforeImage.Rows) > 0 {
+		// rows that existed were updated, the others inserted: each kind gets its own
+		// undo log, so that a rollback restores the former and removes the latter
+		existed := make(map[string]bool, len(beforeImage.Rows))
+		for _, row := range beforeImage.Rows {
+			existed[imageRowKey(row)] = true
+		}
+		updated := &types.RecordImage{TableName: afterImage.TableName, TableMeta: afterImage.TableMeta, SQLType: types.SQLTypeUpdate}
+		inserted := &types.RecordImage{TableName: afterImage.TableName, TableMeta: afterImage.TableMeta, SQLType: types.SQLTypeInsert}
+		for _, row := range afterImage.Rows {
+			if existed[imageRowKey(row)] {
+				updated.Rows = append(updated.Rows, row)
+			} else {
+				inserted.Rows = append(inserted.Rows, row)
+			}
+		}
 		beforeImage.SQLType = types.SQLTypeUpdate
-		afterImage.SQLType = types.SQLTypeUpdate
-	} else {
-		beforeImage.SQLType = types.SQLTypeInsert
-		afterImage.SQLType = types.SQLTypeInsert
+		i.execContext.TxCtx.RoundImages.AppendBeofreImage(beforeImage)
+		i.execContext.TxCtx.RoundImages.AppendAfterImage(updated)
+		if len(inserted.Rows) > 0 {
+			i.execContext.TxCtx.RoundImages.AppendBeofreImage(&types.RecordImage{TableName: afterImage.TableName, TableMeta: afterImage.TableMeta, SQLType: types.SQLTypeInsert})
+			i.execContext.TxCtx.RoundImages.AppendAfterImage(inserted)
+		}
+		return res, nil
 	}
 
+	beforeImage.SQLType = types.SQLTypeInsert
+	afterImage.SQLType = types.SQLTypeInsert
 	i.execContext.TxCtx.RoundImages.AppendBeofreImage(beforeImage)
 	i.execContext.TxCtx.RoundImages.AppendAfterImage(afterImage)
 	return res, nil
+}
+
+// imageRowKey is the primary-key value of an image row as text
+func imageRowKey(row types.RowImage) string {
+	var key strings.Builder
+	for _, column := range row.PrimaryKeys(row.Columns) {
+		key.WriteString(fmt.Sprintf("%v", column.GetActualValue()))
+		key.WriteByte(0)
+	}
+	return key.String()
 }
 
 // beforeImage build before image
